@@ -15,7 +15,7 @@ from gherkin.token_matcher_markdown import GherkinInMarkdownTokenMatcher as MD
 ROLES = ["FeatureLine", "RuleLine", "BackgroundLine", "ScenarioLine", "ExamplesLine"]
 ROLE_CATS = {"FeatureLine": ["feature"], "RuleLine": ["rule"], "BackgroundLine": ["background"], "ScenarioLine": ["scenario", "scenarioOutline"],
              "ExamplesLine": ["examples"]}
-TITLES = ["", " name here ", "x"]
+TITLES = ["", " name here ", "x", " issue #", " see ticket ##  ", " #", " C# and F#", " trailing colon: ", " `@tag` in title"]
 
 
 def tok(line):
@@ -78,7 +78,7 @@ def unit_titles(a):
                 for kw in DIALECTS[d][cat]:
                     for depth in range(1, 8):
                         for ind in range(0, 4):
-                            for ti in range(3):
+                            for ti in range(len(TITLES) if (depth in (1, 6) and ind in (0, 3)) else 3):
                                 yield {"sub": "title", "dialect": d, "cat": cat, "kw": kw, "depth": depth, "indent": ind, "title": ti}
                     for ind in (0, 2):
                         for depth in (1, 3):
@@ -92,8 +92,16 @@ def check_step(case, stats):
     d, kw, bullet, sp, ind = case["dialect"], case["kw"], case["bullet"], case["spaces"], case["indent"]
     rest = kw + "some text "
     line = " " * ind + (bullet + " " * sp if bullet else "") + rest + "\n"
-    stats.case((d, kw, bullet, sp, ind), True, sample=case, labels=["bullet" if bullet else "no-bullet"])
+    stats.case((d, kw, bullet, sp, ind, case.get("history", 0)), True, sample=case, labels=["bullet" if bullet else "no-bullet"] + (["after-history"] if case.get("history") else []))
     m = MD(d)
+    if case.get("history"):
+        # recognition of a line does not depend on what the matcher was shown before (an open code fence, a feature header, prose)
+        for hl, meth in (("```yaml", "match_DocStringSeparator"), ("# " + DIALECTS[d]["feature"][0] + ": f", "match_FeatureLine"), ("prose", "match_Other"),
+                         ("`@t`", "match_TagLine"), ("  | a |", "match_TableRow"))[: case["history"]]:
+            try:
+                getattr(m, meth)(tok(hl + "\n"))
+            except AttributeError:
+                pass
     t = tok(line)
     got = m.match_StepLine(t)
     if not bullet:
@@ -131,6 +139,8 @@ def unit_steps(a):
                     for sp in (1, 2):
                         for ind in range(0, 4):
                             yield {"sub": "step", "dialect": d, "kw": kw, "bullet": bullet, "spaces": sp, "indent": ind}
+                    yield {"sub": "step", "dialect": d, "kw": kw, "bullet": bullet, "spaces": 1, "indent": 0, "history": 1}
+                    yield {"sub": "step", "dialect": d, "kw": kw, "bullet": bullet, "spaces": 1, "indent": 2, "history": 5}
                 yield {"sub": "step", "dialect": d, "kw": kw, "bullet": "", "spaces": 0, "indent": 0}
                 yield {"sub": "step", "dialect": d, "kw": kw, "bullet": "", "spaces": 0, "indent": 2}
     sweep(stats, gen(), check_step)
